@@ -15,6 +15,7 @@ pub mod c11;
 pub mod t2;
 pub mod t2b;
 pub mod t2c;
+pub mod attrs;
 pub mod c09;
 pub mod c15;
 pub mod c06;
@@ -31,6 +32,7 @@ pub use c11::*;
 pub use t2::*;
 pub use t2b::*;
 pub use t2c::*;
+pub use attrs::*;
 pub use c09::*;
 pub use c15::*;
 pub use c06::*;
